@@ -500,7 +500,12 @@ Definition new_msr (i : list N) (remain : Z) : mres unit :=
   read_next_header (mkMsr [mkFrame i remain 0 0 hdr0] false 0 (-1)).
 
 Definition new_batch (offset hwm : Z) (i : list N) (remain : Z) (late : bool) : batch :=
-  if hwm =? offset then mkBatch (Some (mkMsr [] true 0 0)) true offset offset (-1) None late
+  if hwm =? offset then
+    (* the empty reader never reads: the message set the broker may have sent is skipped *)
+    match p_discard remain (i, remain) with
+    | POk _ _ => mkBatch (Some (mkMsr [] true 0 0)) true offset offset (-1) None late
+    | PErr _ _ => mkBatch (Some (mkMsr [] true 0 0)) true offset offset (-1) (Some EIO) late
+    end
   else match new_msr i remain with
        | MOk _ m => mkBatch (Some m) true offset offset (-1) None late
        | MErr EShort m =>
@@ -532,6 +537,18 @@ Definition closes_conn (e : err) : bool :=
   | EEOF | ETimedOut | EKafka _ => false
   | _ => true
   end.
+
+(* Batch.close: the rest of the response is skipped; when that fails and the batch carried no
+   error (or io.EOF) the failure becomes the batch's error.  Result: Conn.offset, whether the
+   connection gets closed *)
+Definition batch_close (b : batch) : Z * bool :=
+  let derr := match b_msgs b with Some m => msr_discard m | None => None end in
+  let e := match derr, b_err b with
+           | Some _, None => Some EIO
+           | Some _, Some EEOF => Some EIO
+           | _, e0 => e0
+           end in
+  (b_off b, match e with Some e1 => closes_conn e1 | None => false end).
 
 Definition fetch_run (fuel : nat) (offset hwm : Z) (i : list N) (remain : Z) (late : bool)
   : option (list msg * err * Z) :=
